@@ -5,6 +5,7 @@ package parquet
 import (
 	"bytes"
 	"io"
+	"math"
 )
 
 // C01.K0: the whole write->read path on a small file: GenericWriter (schema
@@ -84,4 +85,122 @@ func VerifH_C01_wholeFileRoundTrip() {
 	}
 	r.Close()
 	vCover("wholefile")
+}
+
+// C01.K0b: every physical type and the common logical annotations through the
+// whole write->read path at once, all columns symbolic (page checksums
+// abstracted, page bounds switched off so that min/max comparisons do not fork
+// on every column). Floats are compared by bit pattern (NaN payloads and -0
+// included).
+type verifInnerT struct {
+	P int32  `parquet:"p"`
+	Q string `parquet:"q,optional"`
+}
+
+type verifRecT struct {
+	B    bool             `parquet:"b"`
+	I32  int32            `parquet:"i32"`
+	U32  uint32           `parquet:"u32"`
+	I64  int64            `parquet:"i64,delta"`
+	F32  float32          `parquet:"f32"`
+	F64  float64          `parquet:"f64,split"`
+	S    string           `parquet:"s,dict"`
+	Blob []byte           `parquet:"blob,plain"`
+	UUID [16]byte         `parquet:"uuid,uuid"`
+	Opt  *int64           `parquet:"opt,optional"`
+	In   *verifInnerT     `parquet:"in,optional"`
+	L    []verifInnerT    `parquet:"l"`
+	M    map[string]int32 `parquet:"m"`
+}
+
+func verifSymInner(tag string) verifInnerT {
+	v := verifInnerT{P: int32(vI8(tag + ".p"))}
+	if vChoose(tag+".q", 0, 1) == 1 {
+		v.Q = "q" + vString(tag+".qs", 1)
+	}
+	return v
+}
+
+func verifSameInner(a, b *verifInnerT) bool { return vAll(a.P == b.P, a.Q == b.Q) }
+
+// verifPickT: a structural choice at the thorough tier, a fixed value at the quick tier
+func verifPickT(tag string, hi, quick int) int {
+	if vTier() == 0 {
+		return quick
+	}
+	return vChoose(tag, 0, hi)
+}
+
+func VerifH_C01_wholeFileAllTypes() {
+	vUnwind(1 << 16)
+	vAbstractCRCFixedWidth()
+	var v verifRecT
+	v.B = vBool("b")
+	v.I32 = vI32("i32")
+	v.U32 = vU32("u32")
+	v.I64 = 1234567 // DELTA_BINARY_PACKED column: concrete here (the width of a symbolic delta forks 33 ways; decided under C04)
+	v.F32 = vF32("f32")
+	v.F64 = vF64("f64")
+	v.S = "s" + vString("s", 1)
+	v.Blob = vBytes("blob", 2)
+	v.UUID[0], v.UUID[15] = vU8("u0"), vU8("u15")
+	if verifPickT("opt", 1, 1) == 1 {
+		x := vI64("optv")
+		v.Opt = &x
+	}
+	if verifPickT("in", 1, 1) == 1 {
+		in := verifSymInner("in")
+		v.In = &in
+	}
+	for i, n := 0, verifPickT("list", 2, 1); i < n; i++ {
+		v.L = append(v.L, verifSymInner("l"))
+	}
+	if verifPickT("map", 1, 1) == 1 {
+		v.M = map[string]int32{"k": vI32("mk")}
+	}
+	second := verifRecT{I32: 7, S: "t", UUID: [16]byte{1}, L: []verifInnerT{{P: 1}}}
+	opts := []WriterOption{SkipPageBounds("b"), SkipPageBounds("i32"), SkipPageBounds("u32"), SkipPageBounds("i64"), SkipPageBounds("f32"), SkipPageBounds("f64"), SkipPageBounds("s"), SkipPageBounds("blob"), SkipPageBounds("uuid"), SkipPageBounds("opt"), SkipPageBounds("in", "p"), SkipPageBounds("in", "q"), SkipPageBounds("l", "p"), SkipPageBounds("l", "q"), SkipPageBounds("m", "key_value", "key"), SkipPageBounds("m", "key_value", "value")}
+	if vChoose("v1", 0, 1) == 1 {
+		opts = append(opts, DataPageVersion(1))
+	}
+	buf := new(bytes.Buffer)
+	w := NewGenericWriter[verifRecT](buf, opts...)
+	if _, err := w.Write([]verifRecT{v, second}); err != nil {
+		vAssert(false, "rows are accepted")
+		return
+	}
+	if err := w.Close(); err != nil {
+		vAssert(false, "file closes")
+		return
+	}
+	got, err := Read[verifRecT](bytes.NewReader(buf.Bytes()), int64(buf.Len()))
+	vAssert(err == nil && len(got) == 2, "both rows are read back")
+	if len(got) != 2 {
+		return
+	}
+	g := &got[0]
+	vAssert(g.B == v.B && g.I32 == v.I32 && g.U32 == v.U32 && g.I64 == v.I64, "boolean and integer columns round-trip")
+	vAssert(math.Float32bits(g.F32) == math.Float32bits(v.F32) && math.Float64bits(g.F64) == math.Float64bits(v.F64), "float columns round-trip bit for bit")
+	vAssert(g.S == v.S && vBytesEq(g.Blob, v.Blob) && g.UUID == v.UUID, "string, byte array and uuid columns round-trip")
+	vAssert((g.Opt == nil) == (v.Opt == nil), "optional pointer keeps its nil-ness")
+	if g.Opt != nil && v.Opt != nil {
+		vAssert(*g.Opt == *v.Opt, "optional pointer keeps its value")
+	}
+	vAssert((g.In == nil) == (v.In == nil), "optional group keeps its nil-ness")
+	if g.In != nil && v.In != nil {
+		vAssert(verifSameInner(g.In, v.In), "optional group keeps its fields")
+	}
+	vAssert(len(g.L) == len(v.L), "list of groups keeps its length")
+	for i := range v.L {
+		if i < len(g.L) {
+			vAssert(verifSameInner(&g.L[i], &v.L[i]), "list of groups keeps its elements")
+		}
+	}
+	vAssert(len(g.M) == len(v.M), "map keeps its size")
+	if len(v.M) == 1 {
+		x, ok := g.M["k"]
+		vAssert(ok && x == v.M["k"], "map keeps its entry")
+	}
+	vAssert(got[1].I32 == 7 && got[1].S == "t" && len(got[1].L) == 1 && got[1].L[0].P == 1, "the concrete second row round-trips")
+	vCover("all types")
 }
